@@ -34,6 +34,18 @@ def rand_name(rng, maxlen=4):
     return s
 
 
+# file names that look like Python's pseudo stream names (`<stderr>`, `<fdopen>`: FileStorage discards
+# such a name only when it was taken from `stream.name`, never an explicitly given filename) and near
+# misses
+ANGLE_FILENAMES = ["<x>", "<>", "<a b>", "<é>", "<untitled>", "<Ünïcode ☃>", "<stderr>", "<fdopen>", "<x", "x>", "a<b>c", "<<x>>", "<x>.txt"]
+
+
+def rand_filename(rng, maxlen=4):
+    if rng.random() < 0.2:
+        return rng.choice(ANGLE_FILENAMES)
+    return rand_name(rng, maxlen)
+
+
 def rand_text(rng, maxlen=6):
     k = rng.choice([0, 1, 1, 2, 3, maxlen])
     return "".join(rng.choice(TEXT_ATOMS) for _ in range(k))
@@ -180,7 +192,7 @@ def mk_events(rng, boundary):
     parts = []
     for _ in range(rng.choice([0, 1, 1, 2, 3])):
         name = rand_name(rng)
-        fn = rand_name(rng) if rng.random() < 0.45 else None
+        fn = rand_filename(rng) if rng.random() < 0.45 else None
         hdrs = rng.choice([[], [("Content-Type", "text/plain")], [("Content-Type", "text/plain; charset=utf-8"), ("X-A", "b")], [("content-disposition", "ignored")], [("X-É", "ü")]])
         for _ in range(10):
             payload = rand_bytes(rng, boundary)
@@ -234,6 +246,8 @@ class EncoderEvents(Stream):
             {"b": hx(b"b"), "evs": ["F:" + hs("a") + ":[]", "D:-:0", "U:" + hs("f") + ":" + hs("x.txt") + ":[]", "D:" + hx(b"\r\n--b-") + ":0", "E:-"], "valid": True},
             # F02a regression (fixed by d57c0c6): empty first Data chunk followed by data
             {"b": hx(b"b"), "evs": ["P:-", "F:" + hs("a") + ":[]", "D:-:1", "D:" + hx(b"abc") + ":0", "E:-"], "valid": True},
+            # file names of the form `<...>` stay file names
+            {"b": hx(b"b"), "evs": ["P:-", "U:" + hs("f") + ":" + hs("<x>") + ":[]", "D:" + hx(b"abc") + ":0", "U:" + hs("g") + ":" + hs("<>") + ":[]", "D:-:0", "U:" + hs("h") + ":" + hs("<é>") + ":[]", "D:" + hx(b"v") + ":0", "E:-"], "valid": True},
             # state errors
             {"b": hx(b"b"), "evs": ["D:" + hx(b"x") + ":0"], "valid": False},
             {"b": hx(b"b"), "evs": ["P:-", "P:-"], "valid": False},
@@ -321,6 +335,11 @@ class ClientRoundtrip(Stream):
         # the same through MultiPartParser with small buffers
         {"fields": [[hs("t"), hs("aé€\U0001f600b")]], "files": [], "args": [], "via": "parser", "bs": 1},
         {"fields": [[hs("é"), hs("é" * 50)], [hs("t"), hs("€" * 33)]], "files": [[hs("f"), hx("é".encode() * 9), hs("é.txt"), "text/plain"]], "args": [], "via": "parser", "bs": 3},
+        # uploads whose file name has the form `<...>` (and near misses) stay files with that name, through every path
+    ] + [
+        {"fields": [[hs("a"), hs("1")]], "files": [[hs("u%d" % i), hx(b"c\xff" + fn.encode()), hs(fn), ct] for i, fn in enumerate(ANGLE_FILENAMES)], "args": [], "via": via, **({"bs": 5} if via == "parser" else {})}
+        for via in ["environ", "encode", "parser"]
+        for ct in [None, "text/plain"]
     ]
 
     def cases(self, rng, tier):
@@ -331,7 +350,7 @@ class ClientRoundtrip(Stream):
             files = []
             for _ in range(rng.choice([0, 0, 1, 2])):
                 content = rand_bytes(rng, b"bound")
-                files.append([hs("u" + rand_name(rng, 2)), hx(content), hs(rand_name(rng) or "f"), rng.choice(CONTENT_TYPES)])
+                files.append([hs("u" + rand_name(rng, 2)), hx(content), hs(rand_filename(rng) or "f"), rng.choice(CONTENT_TYPES)])
             args = [[hs(rand_name(rng) or "q"), hs(rand_text(rng))] for _ in range(rng.choice([0, 0, 1, 3]))]
             yield {"fields": fields, "files": files, "args": args, "via": rng.choice(["environ", "environ", "encode"])}
         # MultiPartParser with small buffers / short reads over non-ASCII text values
@@ -340,7 +359,7 @@ class ClientRoundtrip(Stream):
             for _ in range(rng.choice([1, 1, 2, 3])):
                 v = "".join(rng.choice(["é", "ü", "€", "名", "\U0001f600", "a", " ", "\r\n", "-", "\u07ff", "\uffff"]) for _ in range(rng.choice([1, 3, 8, 20, 60])))
                 fields.append([hs(rand_name(rng) or "k"), hs(v)])
-            files = [[hs("u"), hx(rand_bytes(rng, b"bound")), hs("é.bin"), None]] if rng.random() < 0.3 else []
+            files = [[hs("u"), hx(rand_bytes(rng, b"bound")), hs(rng.choice(["é.bin", "é.bin"] + ANGLE_FILENAMES)), None]] if rng.random() < 0.3 else []
             yield {"fields": fields, "files": files, "args": [], "via": "parser", "bs": rng.choice([1, 2, 3, 5, 7, 11, 64])}
 
     @staticmethod
